@@ -126,12 +126,12 @@ func Append(ctx context.Context, basen ipld.Node, db *h.DagBuilderHelper) (out i
 	}
 
 	// Last child in this node may not be a full tree, lets fill it up.
-	if err := appendFillLastChild(ctx, fsn, depth-1, repeatNumber, db); err != nil {
+	if err := appendFillLastChild(ctx, fsn, depth, repeatNumber, db); err != nil {
 		return nil, err
 	}
 
-	// after appendFillLastChild, our depth is now increased by one
-	if !db.Done() {
+	// a partially filled layer has been completed by appendFillLastChild
+	if repeatNumber != 0 {
 		depth++
 	}
 
@@ -166,8 +166,14 @@ func appendFillLastChild(ctx context.Context, fsn *h.FSNodeOverDag, depth int, r
 		return err
 	}
 
+	// depth is the layer being filled, or the next one to open if none is
+	// partially filled: then the last child belongs to the layer before.
+	if repeatNumber == 0 {
+		depth--
+	}
+
 	// Fill out last child (may not be full tree)
-	newChild, nchildSize, err := appendRec(ctx, lastChild, db, depth-1)
+	newChild, nchildSize, err := appendRec(ctx, lastChild, db, depth)
 	if err != nil {
 		return err
 	}
@@ -218,17 +224,12 @@ func appendRec(ctx context.Context, fsn *h.FSNodeOverDag, db *h.DagBuilderHelper
 	}
 	// TODO: Same as `appendFillLastChild`, when is this case possible?
 
-	// If at correct depth, no need to continue
-	if depth == maxDepth {
-		return fsn, fsn.FileSize(), nil
-	}
-
 	if err := appendFillLastChild(ctx, fsn, depth, repeatNumber, db); err != nil {
 		return nil, 0, err
 	}
 
-	// after appendFillLastChild, our depth is now increased by one
-	if !db.Done() {
+	// a partially filled layer has been completed by appendFillLastChild
+	if repeatNumber != 0 {
 		depth++
 	}
 
